@@ -105,6 +105,9 @@ SPECS = [
          select={"start": "match int.from_bytes(record.record_version"}, params=[("is_tls13", "Bool")], consts=TLSVER,
          places=[("record.record_version", "record_version", "Bytes", "r"), ("record.binary", "binary", "Bytes", "r"),
                  ("self.tls_version", "tls_version", f"Option {VER}", "rw"), ("self.can_decrypt", "can_decrypt", "Bool", "rw")]),
+    dict(name="server_hello_latch", file="tlexport/session.py", func="Session.handle_tls_server_hello",
+         select={"start": "if self.client_hello_seen:"}, params=[],
+         places=[("self.client_hello_seen", "client_hello_seen", "Bool", "r"), ("self.can_decrypt", "can_decrypt", "Bool", "rw")]),
     # main.py handle_quic_packet: the head (what is read from a long header; `return` on a long header in < 6 bytes) …
     dict(name="quic_header", file="tlexport/main.py", func="handle_quic_packet",
          select={"start": "quic_version = QuicVersion.UNKNOWN", "end": "if header_type == QuicHeaderType.LONG:\n    if len(packet_payload)"},
@@ -124,7 +127,7 @@ SPECS = [
                  ("packet.ip_src", "ip_src", "Bytes", "r"), ("packet.sport", "sport", "Nat", "r"),
                  ("session.client_ip", "client_ip", "Bytes", "r"), ("session.client_port", "client_port", "Nat", "r")]),
     dict(name="quic_short_cid_test", file="tlexport/main.py", func="handle_quic_packet",
-         select={"if_test": "if len(cid) > 0 and cid == packet_payload"}, params=[("cid", "Bytes"), ("packet_payload", "Bytes")]),
+         select={"within": "for cid in sorted(", "if_test": "if "}, params=[("cid", "Bytes"), ("packet_payload", "Bytes")]),
     # main.py run(): what happens to one frame of the capture (the statement `if packet.tcp_packet: … elif packet.udp_packet: …`
     # of the loop body); the checksum functions are inputs, the two handlers are trace entries
     dict(name="run_classify", file="tlexport/main.py", func="run", select={"start": "if packet.tcp_packet:"}, params=[], exits=True,
@@ -357,6 +360,28 @@ def _cases(rng, n):
     return out
 
 
+# sources outside the subset: the translator must refuse each (never guess)
+OUTSIDE = [
+    ("def f(x):\n    while x > 0:\n        x -= 1\n    return x\n", [("x", "Int")], "Int"),
+    ("def f(x):\n    return x / 2\n", [("x", "Int")], "Int"),
+    ("def f(x, y):\n    return x > 0 and y[0] == 1\n", [("x", "Int"), ("y", "Bytes")], "Bool"),
+    ("def f(x):\n    if x > 0:\n        y = 1\n    return y\n", [("x", "Int")], "Int"),
+    ("def f(x):\n    some = x + 1\n    return some\n", [("x", "Int")], "Int"),
+    ("def f(x):\n    return x if x else 0\n", [("x", "Int")], "Int"),
+    ("def f(x):\n    return g(x)\n", [("x", "Int")], "Int"),
+    ("def f(x):\n    return x.y\n", [("x", "Int")], "Int"),
+    ("def f(x):\n    return x[::2]\n", [("x", "Bytes")], "Bytes"),
+    ("def f(x):\n    for i in x:\n        pass\n    return 0\n", [("x", "Bytes")], "Int"),
+    ("def f(x):\n    for i in range(3):\n        if i == x:\n            return 1\n    return 0\n", [("x", "Int")], "Int"),
+    ("def f(x):\n    return x == b'a'\n", [("x", "Int")], "Bool"),
+    ("def f(x):\n    if x > 0:\n        return 1\n", [("x", "Int")], "Int"),
+    ("def f(x):\n    try:\n        return 1\n    except Exception:\n        return 2\n", [("x", "Int")], "Int"),
+    ("def f(x):\n    return int.from_bytes(x, 'little')\n", [("x", "Bytes")], "Nat"),
+    ("def f(x):\n    return [i for i in range(x)]\n", [("x", "Int")], "Int"),
+    ("def f(x):\n    self.y = x\n", [("x", "Int")], "None"),
+]
+
+
 def selftest(n=60, seed=0):
     """The translator and `PyRt.lean` against CPython: every whole-function translation is evaluated by Lean on sampled
     inputs and compared with what the Python function itself does (result, exception, attribute writes).
@@ -379,4 +404,11 @@ def selftest(n=60, seed=0):
             seen[int(i)] = v
     bad = [{"case": i, "function": cases[i][0], "args": cases[i][1], "python": cases[i][2], "lean_agrees": seen.get(i)}
            for i in range(len(cases)) if seen.get(i) != "true"]
-    return {"cases": len(cases), "functions": len({c[0] for c in cases}), "mismatches": bad, "log_tail": outp.splitlines()[-5:] if bad else []}
+    for src, params, ret in OUTSIDE:
+        try:
+            text = py2lean.translate(src, dict(name="f", params=params, ret=ret))
+            bad.append({"function": "translator", "source": src, "python": "outside the subset", "lean_agrees": "translated: " + text[:200]})
+        except Untranslatable:
+            pass
+    return {"cases": len(cases), "functions": len({c[0] for c in cases}), "refused": len(OUTSIDE), "mismatches": bad,
+            "log_tail": outp.splitlines()[-5:] if bad else []}
